@@ -65,8 +65,7 @@ def r14_1(run, model):
     # concatenation order
     for name, rel in (("compile", PL), ("link_cores", SEP)):
         f = model.fn(name, rel)
-        topo = {l["pat"]["name"] for l in S.find(f.body, "Local") if l["pat"]["k"] == "PIdent" and l.get("init") is not None
-                and any(True for _ in S.calls(l["init"], "topo_sort", "topo_sort_packages"))}
+        topo = set(topo_vars(run, model, f, rel))
         found = False
         for loop in S.find(f.body, "For"):
             body = loop["body"]
@@ -226,6 +225,50 @@ def canonical_link_order(run, model, rule="R14.1"):
         raise AnalysisIncomplete("link_cores: no local bound from topo_sort")
 
 
+
+TOPO_FNS = ("topo_sort", "topo_sort_packages")
+
+
+def topo_vars(run, model, f, rel):
+    """locals of f that hold a topological order: bound from a topo_sort call, or taken (by a struct pattern) out of the result of a
+    function of the same file that stores such a local in that field.  name -> (ordering function, binding node)"""
+    out = {}
+    for l in S.find(f.body, "Local"):
+        if l.get("init") is None:
+            continue
+        cs = [c for c in S.calls(l["init"], *TOPO_FNS)]
+        if cs and l["pat"]["k"] == "PIdent":
+            out[l["pat"]["name"]] = (S.callee_name(cs[0]), l)
+    lets = {l["pat"]["name"]: l["init"] for l in S.find(f.body, "Local") if l["pat"]["k"] == "PIdent" and l.get("init") is not None}
+    for l in S.find(f.body, "Local"):
+        if l["pat"]["k"] != "PStruct" or l.get("init") is None:
+            continue
+        src = l["init"]
+        while src["k"] in ("Try", "Paren"):
+            src = src["expr"]
+        if src["k"] == "Path" and len(src["segs"]) == 1 and src["segs"][0] in lets:
+            src = lets[src["segs"][0]]
+            while src["k"] in ("Try", "Paren"):
+                src = src["expr"]
+        if src["k"] not in ("Call", "MethodCall"):
+            continue
+        gs = [g for g in model.fns(rel) if g.name == S.callee_name(src) and g.body is not None]
+        if len(gs) != 1:
+            continue
+        inner = topo_vars(run, model, gs[0], rel) if gs[0] is not f else {}
+        for fld in l["pat"].get("fields", []):
+            fname = fld.get("name")
+            binds = S.pat_bindings(fld["pat"]) if fld.get("pat") else [fname]
+            for st in S.find(gs[0].body, "Struct"):
+                for sf in st["fields"]:
+                    if sf["name"] == fname:
+                        vids = S.idents(sf["expr"]) if sf.get("expr") else {fname}
+                        hit = [v for v in vids if v in inner]
+                        if hit and binds:
+                            out[binds[0]] = (inner[hit[0]][0], l)
+    return out
+
+
 def _order_source(run, model, f, rel, loop_marker):
     """callee that produces the list iterated by the loop of f that contains a call to loop_marker (whole program) /
     the local bound from topo_sort (link)"""
@@ -240,6 +283,11 @@ def _order_source(run, model, f, rel, loop_marker):
                     e = e["expr"]
                 if e["k"] == "Call":
                     return S.callee_name(e), lets[v]
+        # the list was taken out of a result struct of the same file that stores a topological order in that field
+        tv = topo_vars(run, model, f, rel)
+        for v in S.idents(loop["iter"]):
+            if v in tv:
+                return tv[v]
     return None, None
 
 
